@@ -44,3 +44,6 @@ h!(h_char_ser, sc_char_ser, 4, 42);
 h!(h_char_de, sc_char_de, 3, 20);
 h!(h_duration_de, sc_duration_de, 13, 20);
 h!(h_tuple2_bytes, sc_tuple2_bytes, 2, 42);
+h!(h_iter_count, sc_iter_count, 8, 42);
+h!(h_iter_unknown, sc_iter_unknown, 2, 42);
+h!(h_var_read_owned, sc_var_read_owned, 6, 20);
